@@ -268,7 +268,8 @@ def run(ctx):
                 if st_[0] == 'A' and st_[2][0] == 'bin' and st_[2][1] in ('Ge', 'Gt', 'Le', 'Lt'):
                     da, db_ = deps(fn, st_[2][2]), deps(fn, st_[2][3])
                     et_side = any(is_et(f) for f in da.fields) or any(is_et(f) for f in db_.fields)
-                    pt_side = any('normalize_duration' in c[1] for c in da.calls | db_.calls)
+                    # the preset is the third parameter of step(self, input, pt, delta), whatever helper normalises it
+                    pt_side = (rec['argc'] - 1) in (da.args | db_.args)
                     if not (et_side and pt_side):
                         continue
                     if st_[1][1]:
